@@ -92,6 +92,16 @@ pub fn sources() -> Vec<String> {
         "enum T<'a, 'b: 'a> { #[regex(\"a+\")] A(&'a &'b str), #[token(\"b\")] B }",
         "pub(in crate) enum r#T { #[token(\"a\")] r#A, #[token(\"b\")] B }",
     ];
+    // foreign attributes whose names coincide with logos' other helper attributes (`error`, `extras`,
+    // `end` are registered by the derive but are NOT logos / token / regex) or merely resemble them:
+    // all of them belong to somebody else (thiserror's #[error("..")], ...) and must be kept
+    let lookalikes = ["error(\"bad token\")", "error", "extras(u8)", "end", "tokens(\"x\")", "regexp = \"x\"", "logos_extra(skip)", "skip(\" \")", "callback(f)", "Logos", "thiserror::error(\"x\")", "r#token(\"x\")"];
+    for la in lookalikes {
+        for d in ["Logos, Debug", "Debug, thiserror::Error, Logos"] {
+            v.push(format!("#[derive({d})]\n#[{la}]\nenum T {{\n    #[token(\"a\")] A,\n    #[regex(\"b+\")] B,\n}}\n"));
+            v.push(format!("#[{la}]\n#[derive({d})]\n#[logos(skip \" \")]\nenum T {{\n    #[{la}] #[token(\"a\")] A,\n    #[regex(\"b+\")] #[{la}] B(#[{la}] u8),\n}}\n"));
+        }
+    }
     for sh in shapes {
         for d in ["Logos", "Debug, Logos, Clone", "Debug, logos::Logos"] {
             v.push(format!("#[derive({d})]\n{sh}\n"));
